@@ -44,6 +44,11 @@ def run(ctx):
     ACKN, NAKN = I + 'handshakes_out.ack', I + 'handshakes_out.nak'
     leaves = [l for l in leaves if l not in (ACKN, NAKN)]
     known = {EPM, OUT, PING, RFR, TRFR, MATCH, NEXT, VALID, FULL, OVF, SPACE}
+    # the flip may be written as the Elif arm of the CLEAR_FEATURE clear (then its guard excludes the clear condition):
+    # those three conditions are held at "no clear pending" for the toggle table and judged by C13.toggle-clear below
+    HALTA = (I + 'clear_endpoint_halt_in.enable', I + 'clear_endpoint_halt_in.direction', 'self._endpoint_number == ' + I + 'clear_endpoint_halt_in.number')
+    flip_only = set(q.bool_leaves(*[l.e for l in flip[0].guard])) - set(q.bool_leaves(ack.rhs, nak.rhs))
+    leaves = [l for l in leaves if not (l in HALTA and l in flip_only)]
     ctx.need(set(leaves) <= known, 'conditions of the ack/nak expressions are the known ones (unexpected: %s)' % sorted(set(leaves) - known))
     leaves = sorted(known)          # enumerate every condition of the specification, present in the code or not
     bad_ack = bad_nak = both = bad_flip = None
@@ -61,7 +66,7 @@ def run(ctx):
         want_ack = (data_resp and accepted) or (data_resp and skip) or (ping_resp and g(SPACE))
         want_nak = (data_resp and not accepted and not skip) or (ping_resp and not g(SPACE))
         a, k = q.eval_expr(ack.rhs, asg), q.eval_expr(nak.rhs, asg)
-        f = q.eval_guard(flip[0], dict(asg, **{ACKN: bool(a), NAKN: bool(k)}))
+        f = q.eval_guard(flip[0], dict(asg, **{ACKN: bool(a), NAKN: bool(k), HALTA[0]: False, HALTA[1]: False, HALTA[2]: False}))
         if a != want_ack and bad_ack is None:
             bad_ack = (asg, a, want_ack)
         if k != want_nak and bad_nak is None:
@@ -81,7 +86,12 @@ def run(ctx):
            'the expected toggle must advance exactly when a new packet is ACKed; differs when %s' % (tr(bad_flip[0]) if bad_flip else None,))
     HALT = {(I + 'clear_endpoint_halt_in.enable', True), (I + 'clear_endpoint_halt_in.direction', False),
             ('self._endpoint_number == ' + I + 'clear_endpoint_halt_in.number', True)}
-    ctx.ob('C13.toggle-clear', 'USBStreamOutEndpoint.expected_data_toggle.clear', q.atoms(clr[0]) == HALT and clr[0].order > flip[0].order, clr[0].loc,
+    from ..fsm import lit_atoms, assignments, holds
+    wins = True
+    for asg_ in assignments(sorted({x for a_ in (flip[0], clr[0]) for l in a_.guard for x in lit_atoms(l)})):
+        if holds(clr[0].guard, asg_) and holds(flip[0].guard, asg_) and not clr[0].order > flip[0].order:
+            wins = False
+    ctx.ob('C13.toggle-clear', 'USBStreamOutEndpoint.expected_data_toggle.clear', q.atoms(clr[0]) == HALT and wins, clr[0].loc,
            'CLEAR_FEATURE(HALT) for this OUT endpoint resets the toggle to DATA0 (and wins): %s' % sorted(q.atoms(clr[0])))
     # (c) FIFO control, again by truth table
     we, wc, wd = one(ctx, ir, 'fifo.write_en'), one(ctx, ir, 'fifo.write_commit'), one(ctx, ir, 'fifo.write_discard')
